@@ -47,6 +47,7 @@ func main() {
 	realHex := flag.Bool("realhex", false, "execute encoding/hex from its SSA instead of the length-only stub")
 	cclock := flag.Bool("concreteclock", false, "time.Now returns concrete realistic instants (1.7e9 s + 1000 s per vndAdvanceClock) instead of symbolic ones")
 	acq := flag.Bool("acqonly", false, "preemption points only before acquire-type operations (Lock/RLock, channel operations); releases are left-movers, so for data-race-free code no schedule is lost")
+	maxVec := flag.Int("asn1maxvec", 2, "asn1 havoc: maximum length of a decoded vector")
 	det := flag.Bool("det", false, "deterministic choice of the next goroutine when the current one blocks (canonical schedule)")
 	expect := flag.String("expect", "", "assert id (or panic) expected in replay")
 	tapeDir := flag.String("tapes", "", "directory to write violation tapes to")
@@ -204,7 +205,7 @@ func main() {
 	}
 	load := time.Since(t0)
 	e := &Engine{prog: prog, pkg: pkg, sol: NewSolver(*z3), violations: map[string]*Violation{}, vcount: map[string]int{}, covers: map[string]int{},
-		funcs: map[string]bool{}, incomplete: map[string]int{}, ends: map[string]int{}, loopBound: *loop, maxPaths: *maxPaths, preemptBound: *pre, noinit: *noinit, detSched: *det, mapOrder: *mapOrder, redirects: map[string]string{}, vtraces: map[string][]string{}, coverModels: map[string]*Violation{}, raceOn: *raceOn, realHex: *realHex, asn1Havoc: *havoc, concreteClock: *cclock, acqOnly: *acq, debugDeadlock: os.Getenv("SYMGO_DEBUG_DEADLOCK") != ""}
+		funcs: map[string]bool{}, incomplete: map[string]int{}, ends: map[string]int{}, loopBound: *loop, maxPaths: *maxPaths, preemptBound: *pre, noinit: *noinit, detSched: *det, mapOrder: *mapOrder, redirects: map[string]string{}, vtraces: map[string][]string{}, coverModels: map[string]*Violation{}, raceOn: *raceOn, realHex: *realHex, asn1Havoc: *havoc, concreteClock: *cclock, asn1MaxVec: *maxVec, acqOnly: *acq, debugDeadlock: os.Getenv("SYMGO_DEBUG_DEADLOCK") != ""}
 	if pkgs[0].Module != nil {
 		e.modPrefix = pkgs[0].Module.Path
 		if i := strings.Index(e.modPrefix, "/mpc/"); i > 0 { // sub-modules of the repository share the root prefix
